@@ -665,9 +665,9 @@ impl Prop for C18 {
   }
   fn legs(&self, _tier: Tier) -> Vec<Leg<Case>> {
     vec![
-      Leg { name: "random schedules", source: Cases::Generated(Box::new(random_case), 30_000, 400_000) },
-      Leg { name: "all schedules with <=2 preemptions per program", source: Cases::Generated(Box::new(exhaustive_case), 96, 1600) },
-      Leg { name: "really parallel threads, barrier-released, 25 rounds per program (unscheduled stress)", source: Cases::Generated(Box::new(stress_case), 2_000, 40_000) },
+      Leg { name: "random schedules", source: Cases::Generated(Box::new(random_case), 60_000, 600_000) },
+      Leg { name: "all schedules with <=2 preemptions per program", source: Cases::Generated(Box::new(exhaustive_case), 192, 2400) },
+      Leg { name: "really parallel threads, barrier-released, 25 rounds per program (unscheduled stress)", source: Cases::Generated(Box::new(stress_case), 4_000, 60_000) },
     ]
   }
   fn floor(&self, tier: Tier) -> u64 {
